@@ -9,6 +9,7 @@ use crate::{
 use discv5::{
     packet::PacketKind,
     verif::{self as hv, HandlerOut, Message, RequestId},
+    RequestError,
 };
 use proptest::prelude::*;
 use serde::{Deserialize, Serialize};
@@ -40,6 +41,8 @@ pub struct Freshness {
     handshakes: HashMap<(usize, RequestId), Vec<Vec<u8>>>,
     nontrivial: bool,
     classes: Vec<String>,
+    foreign_wru_steps: u64,
+    foreign_wru_echoing_inflight: u64,
 }
 
 fn kind_of(w: &World, j: &Injection) -> Option<(u8, [u8; 12], Option<ids::Id>)> {
@@ -97,6 +100,50 @@ impl Oracle for Freshness {
                     }
                 }
                 _ => {}
+            }
+        }
+
+        // --- clause 3b: a WHOAREYOU that does not come from the address a request with that nonce is in
+        // flight to is not acted on AT ALL: it neither fails requests nor touches sessions
+        for i in 0..w.nodes.len() {
+            let mine: Vec<&&Injection> = inj.iter().filter(|j| j.to_node == i).collect();
+            if mine.is_empty() {
+                continue;
+            }
+            let all_foreign_wru = mine.iter().all(|j| match kind_of(w, j) {
+                Some((1, nonce, _)) => !w.prev_snaps[i].active.iter().any(|a| a.nonce == nonce && a.addr.socket_addr == j.from_addr),
+                _ => false,
+            });
+            if !all_foreign_wru {
+                continue;
+            }
+            self.foreign_wru_steps += 1;
+            let echoes_inflight = mine.iter().any(|j| matches!(kind_of(w, j), Some((1, nonce, _)) if w.prev_snaps[i].active.iter().any(|a| a.nonce == nonce)));
+            if echoes_inflight {
+                self.foreign_wru_echoing_inflight += 1;
+            }
+            let step_events: Vec<&EvRec> = w.events.iter().rev().take_while(|e| e.step == w.step).filter(|e| e.node == i).collect();
+            let timed_out = step_events.iter().any(|e| matches!(&e.out, HandlerOut::RequestFailed(_, RequestError::Timeout)));
+            for e in &step_events {
+                if let HandlerOut::RequestFailed(id, err) = &e.out {
+                    if !matches!(err, RequestError::Timeout) {
+                        return Some((
+                            "whoareyou/foreign-source-whoareyou-failed-a-request".into(),
+                            format!("node {i} failed request {id} with {err:?} in a step that only processed a WHOAREYOU from {} which no request with that nonce is in flight to (op {op:?})", mine[0].from_addr),
+                        ));
+                    }
+                }
+            }
+            if !timed_out {
+                for before in &w.prev_snaps[i].sessions {
+                    let after = w.snaps[i].sessions.iter().find(|s| s.addr == before.addr);
+                    if after.map(|a| a.keys != before.keys).unwrap_or(true) {
+                        return Some((
+                            "whoareyou/foreign-source-whoareyou-touched-a-session".into(),
+                            format!("node {i}'s session with {} was dropped or re-keyed in a step that only processed a WHOAREYOU from {} which no request with that nonce is in flight to (op {op:?})", before.addr.socket_addr, mine[0].from_addr),
+                        ));
+                    }
+                }
             }
         }
 
@@ -176,6 +223,11 @@ impl Oracle for Freshness {
         }
         rep.count("whoareyous-emitted", self.wrus.values().map(|v| v.len() as u64).sum());
         rep.count("handshakes-emitted", self.handshakes.len() as u64);
+        rep.count("steps-with-only-a-foreign-source-whoareyou", self.foreign_wru_steps);
+        rep.count("steps-with-only-a-foreign-source-whoareyou-echoing-an-inflight-nonce", self.foreign_wru_echoing_inflight);
+        if self.foreign_wru_echoing_inflight > 0 {
+            rep.class("foreign-source-whoareyou-echoing-an-inflight-nonce");
+        }
     }
 }
 
